@@ -225,9 +225,7 @@ fn inner_outer<const N: usize>(li: u8) {
     let mut outer =
         HtmlSerializer::new(ArrW::new(), opts(TraversalScope::IncludeNode, scripting));
     outer.start_elem(name.clone(), core::iter::empty()).unwrap();
-    let open_end = outer.writer.n;
     children::<N>(&mut outer, s);
-    let close_start = outer.writer.n;
     outer.end_elem(name.clone()).unwrap();
 
     // inner: the same children with the element named as the parent, written into a
@@ -245,31 +243,33 @@ fn inner_outer<const N: usize>(li: u8) {
     let _ = inner.writer.write_all(name.local.as_bytes());
     let _ = inner.writer.write_all(b">");
 
-    // text directly under the element is raw iff it is an HTML raw-text element
-    let mut t = HtmlSerializer::new(
-        ArrW::new(),
-        opts(TraversalScope::ChildrenOnly(Some(name.clone())), scripting),
-    );
-    t.write_text(s).unwrap();
+    // reference: "<name>" + X(s) + "<b>" + escape(s) + "</b>" + "</name>" where X leaves the
+    // text raw iff the element is an HTML raw-text element
     let mut r = ArrW::new();
+    let _ = r.write_all(b"<");
+    let _ = r.write_all(name.local.as_bytes());
+    let _ = r.write_all(b">");
     if is_raw_text(&name.ns, &name.local, scripting) {
         let _ = r.write_all(s.as_bytes());
     } else {
         escape_ref(s.as_bytes(), false, &mut r);
     }
+    let _ = r.write_all(b"<b>");
+    escape_ref(s.as_bytes(), false, &mut r);
+    let _ = r.write_all(b"</b>");
+    let _ = r.write_all(b"</");
+    let _ = r.write_all(name.local.as_bytes());
+    let _ = r.write_all(b">");
 
-    if is_void(&name.ns, &name.local) {
-        // void elements: the outer form has no children and no end tag; the law is
-        // stated for non-void elements only
-        assert!(close_start == open_end && outer.writer.n == close_start);
-    } else {
+    if !is_void(&name.ns, &name.local) {
+        // (the law is stated for non-void elements: a void element has no end tag, and
+        // the serializer API gives its children no defined place)
         assert!(same(&outer.writer, &inner.writer));
-        assert!(same(&t.writer, &r));
+        assert!(same(&inner.writer, &r));
     }
     kcover!(s.len() == N && ni == 1, "full-length text under an svg-namespace parent reachable");
     core::mem::forget(outer);
     core::mem::forget(inner);
-    core::mem::forget(t);
     core::mem::forget(name);
 }
 
